@@ -324,4 +324,196 @@ theorem fit_WF {l : List Int} {k : Nat} (h : (⟨l, k⟩ : Poly).WF) (d : Nat) :
   · exact h
   · exact WF_map_e (a := ⟨l, k⟩) h (List.range d) id
 
+
+/-! ### re-chunking, packing, concatenation -/
+
+theorem testBit_false_of_lt {x k i : Nat} (hx : x < 2^k) (hi : k ≤ i) : x.testBit i = false := by
+  apply Nat.testBit_lt_two_pow
+  exact Nat.lt_of_lt_of_le hx (Nat.pow_le_pow_right (by decide) hi)
+
+theorem sliceFast_val {x k k' j : Nat} (hx : x < 2^k) :
+    ((⟨x % 2^k, k⟩ : Bits).sliceFast (j*k') (min (j*k'+k') k)).ival = x / 2^(k'*j) % 2^k' := by
+  simp only [Bits.sliceFast, Bits.ofNatSz, Nat.mod_eq_of_lt hx]
+  apply Nat.eq_of_testBit_eq
+  intro i
+  simp only [Nat.testBit_mod_two_pow, Nat.testBit_shiftRight, Nat.testBit_and, Nat.testBit_two_pow_sub_one,
+    Nat.testBit_div_two_pow, Nat.mul_comm k' j]
+  by_cases hk : j*k' + i < k
+  · by_cases hi : i < k'
+    · have h1 : i < min (j*k'+k') k - j*k' := by omega
+      have h2 : j*k' + i < min (j*k'+k') k := by omega
+      simp [h1, h2, hi, Nat.add_comm i]
+    · have h1 : ¬ i < min (j*k'+k') k - j*k' := by omega
+      simp [h1, hi]
+  · have := testBit_false_of_lt hx (Nat.le_of_not_lt hk)
+    simp [this, Nat.add_comm i]
+
+theorem bits_split_ival {x k k' : Nat} (hx : x < 2^k) (hk' : 0 < k') (be : Bool) :
+    ∃ l, (Bits.ofNatSz x k).split k' be = .ok l ∧
+      l.map (·.ival) = (if be then (Spec.Poly.digits k k' x).reverse else Spec.Poly.digits k k' x) := by
+  simp only [Bits.split, Nat.ne_of_gt hk', if_false, Bits.ofNatSz]
+  refine ⟨_, rfl, ?_⟩
+  have hd : ((List.range ((k + k' - 1) / k')).map fun j =>
+      (⟨x % 2^k, k⟩ : Bits).sliceFast (j * k') (min (j * k' + k') k)).map (·.ival) = Spec.Poly.digits k k' x := by
+    simp only [List.map_map, Spec.Poly.digits, Spec.Poly.pieces]
+    apply List.map_congr_left
+    intro j _
+    exact sliceFast_val hx
+  cases be
+  · simpa using hd
+  · simp only [if_true, List.map_reverse]
+    rw [hd]
+
+theorem ofNat_toNat_mod {k : Nat} (hk : 0 < k) {n : Nat} (h : n < 2^k) : red k (Int.ofNat n) = Int.ofNat n := by
+  apply red_of_range
+  right
+  refine ⟨Int.natCast_nonneg n, ?_⟩
+  have : ((2:Int)^k) = ((2^k : Nat) : Int) := by simp
+  rw [this]; exact Int.ofNat_lt.mpr h
+
+theorem digits_lt {k k' x : Nat} : ∀ d ∈ Spec.Poly.digits k k' x, d < 2^k' := by
+  intro d hd
+  simp only [Spec.Poly.digits, List.mem_map] at hd
+  obtain ⟨j, _, rfl⟩ := hd
+  exact Nat.mod_lt _ (Nat.two_pow_pos k')
+
+theorem split_mapM {k k' : Nat} (hk : 0 < k) (hk' : 0 < k') (be : Bool) :
+    ∀ (l : List Int), (∀ x ∈ l, 0 ≤ x ∧ x < (2:Int)^k) →
+    ∃ parts, l.mapM (fun x => if k = 0 then (.error "AttributeError:int has no split" : Except Err (List Bits))
+                              else (Bits.ofNatSz x.toNat k).split k' be) = .ok parts ∧
+      parts.flatten.map (fun b => red k' (Int.ofNat b.ival)) =
+        (Spec.Poly.rechunk k k' be (l.map Int.toNat)).map Int.ofNat
+  | [], _ => ⟨[], rfl, by simp [Spec.Poly.rechunk]⟩
+  | x :: xs, h => by
+    have hx := h x (List.mem_cons_self)
+    obtain ⟨lx, hlx, hval⟩ := bits_split_ival (toNat_lt_pow hx.1 hx.2) hk' be
+    obtain ⟨parts, hparts, hrest⟩ := split_mapM hk hk' be xs (fun z hz => h z (List.mem_cons_of_mem _ hz))
+    refine ⟨lx :: parts, ?_, ?_⟩
+    · rw [List.mapM_cons, if_neg (Nat.ne_of_gt hk), hlx, hparts]; rfl
+    · simp only [List.flatten_cons, List.map_append, hrest, Spec.Poly.rechunk, List.map_cons, List.flatMap_cons]
+      congr 1
+      have : lx.map (fun b => red k' (Int.ofNat b.ival)) = (lx.map (·.ival)).map (fun n => red k' (Int.ofNat n)) := by
+        simp [List.map_map]
+      rw [this, hval]
+      apply List.map_congr_left
+      intro d hd
+      apply ofNat_toNat_mod hk'
+      cases be
+      · exact digits_lt d (by simpa using hd)
+      · exact digits_lt d (by simpa using hd)
+
+theorem flatMap_getElem?_const {α β : Type} (f : α → List β) {q : Nat} (hq : 0 < q) (hf : ∀ x, (f x).length = q) :
+    ∀ (l : List α) (j : Nat), (l.flatMap f)[j]? = (l[j / q]?).bind fun x => (f x)[j % q]?
+  | [], j => by simp
+  | x :: xs, j => by
+    rw [List.flatMap_cons]
+    by_cases hj : j < q
+    · rw [List.getElem?_append_left (by rw [hf]; exact hj)]
+      simp [Nat.div_eq_of_lt hj, Nat.mod_eq_of_lt hj]
+    · have hge : q ≤ j := Nat.le_of_not_lt hj
+      rw [List.getElem?_append_right (by rw [hf]; exact hge), hf, flatMap_getElem?_const f hq hf xs (j - q)]
+      obtain ⟨j', rfl⟩ : ∃ j', j = j' + q := ⟨j - q, by omega⟩
+      rw [Nat.add_sub_cancel, Nat.add_div_right _ hq, Nat.add_mod_right]
+      simp
+
+theorem flatMap_length_const {α β : Type} (f : α → List β) {q : Nat} (hf : ∀ x, (f x).length = q) :
+    ∀ (l : List α), (l.flatMap f).length = l.length * q
+  | [] => by simp
+  | x :: xs => by
+    rw [List.flatMap_cons, List.length_append, hf, flatMap_length_const f hf xs, List.length_cons, Nat.succ_mul]
+    omega
+
+theorem digits_length (k k' x : Nat) : (Spec.Poly.digits k k' x).length = Spec.Poly.pieces k k' := by
+  simp [Spec.Poly.digits]
+
+theorem rechunk_length (k k' : Nat) (be : Bool) (l : List Nat) :
+    (Spec.Poly.rechunk k k' be l).length = l.length * Spec.Poly.pieces k k' := by
+  apply flatMap_length_const
+  intro x; cases be <;> simp [digits_length]
+
+theorem pieces_pos {k k' : Nat} (hk : 0 < k) (hk' : 0 < k') : 0 < Spec.Poly.pieces k k' := by
+  unfold Spec.Poly.pieces
+  apply Nat.div_pos <;> omega
+
+theorem pieces_dvd {k k' : Nat} (hk' : 0 < k') (h : k' ∣ k) : Spec.Poly.pieces k k' = k / k' := by
+  obtain ⟨m, rfl⟩ := h
+  unfold Spec.Poly.pieces
+  rw [Nat.mul_div_cancel_left _ hk']
+  have : k' * m + k' - 1 = (k' - 1) + k' * m := by omega
+  rw [this, Nat.add_mul_div_left _ _ hk', Nat.div_eq_of_lt (by omega)]
+  omega
+
+theorem e_map_ofNat (l : List Nat) (k j : Nat) : ((⟨l.map Int.ofNat, k⟩ : Poly).e j).toNat = l.getD j 0 := by
+  simp only [e, List.getD_eq_getElem?_getD, List.getElem?_map]
+  cases l[j]? <;> simp
+
+theorem flatMap_congr' {α β : Type} {f g : α → List β} :
+    ∀ (l : List α), (∀ x ∈ l, f x = g x) → l.flatMap f = l.flatMap g
+  | [], _ => rfl
+  | x :: xs, h => by
+    rw [List.flatMap_cons, List.flatMap_cons, h x (List.mem_cons_self),
+      flatMap_congr' xs (fun y hy => h y (List.mem_cons_of_mem _ hy))]
+
+theorem digits_eq_leBytes_aux (q : Nat) : ∀ (x : Nat),
+    (List.range q).map (fun j => x / 2 ^ (8 * j) % 2 ^ 8) = Py.leBytes q x := by
+  induction q with
+  | zero => intro x; rfl
+  | succ q ih =>
+    intro x
+    rw [List.range_succ_eq_map, List.map_cons, List.map_map, Py.leBytes, ← ih (x / 256)]
+    congr 1
+    · simp
+    · apply List.map_congr_left
+      intro j _
+      simp only [Function.comp]
+      rw [Nat.div_div_eq_div_mul]
+      congr 2
+      rw [show 8 * (j+1) = 8 + 8 * j by omega, Nat.pow_add]
+
+theorem digits_eq_leBytes (k x : Nat) : Spec.Poly.digits k 8 x = Py.leBytes ((k + 7) / 8) x := by
+  simp only [Spec.Poly.digits, Spec.Poly.pieces]
+  exact digits_eq_leBytes_aux _ x
+
+theorem split_spec' {a : Poly} (hk : 0 < a.size) (ha : a.WF) {k' : Nat} (hk' : 0 < k') (hne : k' ≠ a.size) (be : Bool) :
+    a.split k' be = .ok ⟨(Spec.Poly.rechunk a.size k' be (a.ival.map Int.toNat)).map Int.ofNat, k'⟩ := by
+  have hall : ∀ x ∈ a.ival, 0 ≤ x ∧ x < (2:Int)^a.size := by
+    rcases ha with ha | ha
+    · omega
+    · exact ha
+  obtain ⟨parts, hparts, hval⟩ := split_mapM hk hk' be a.ival hall
+  simp only [split, hne, if_false, hparts, bind, Except.bind, pure, Except.pure, hval]
+
+theorem split_same' (a : Poly) (be : Bool) : a.split a.size be = .ok a := by simp [split]
+
+theorem split8_ival {a : Poly} (hk : 0 < a.size) (ha : a.WF) :
+    ∃ p, a.split 8 = .ok p ∧ p.ival.map (fun x => x.toNat &&& 0xff) = Spec.Poly.rechunk a.size 8 false (a.ival.map Int.toNat) := by
+  by_cases h8 : 8 = a.size
+  · refine ⟨a, by rw [h8]; exact split_same' a false, ?_⟩
+    simp only [Spec.Poly.rechunk, ← h8, List.flatMap_map]
+    rw [List.map_eq_flatMap]
+    apply flatMap_congr'
+    intro x _
+    simp [Spec.Poly.digits, Spec.Poly.pieces]
+    exact Nat.and_two_pow_sub_one_eq_mod x.toNat 8
+  · refine ⟨_, split_spec' hk ha (by decide) h8 false, ?_⟩
+    simp only [List.map_map]
+    conv => rhs; rw [← List.map_id (Spec.Poly.rechunk a.size 8 false (a.ival.map Int.toNat))]
+    apply List.map_congr_left
+    intro d hd
+    have : d < 2^8 := by
+      simp only [Spec.Poly.rechunk, List.mem_flatMap] at hd
+      obtain ⟨x, _, hx⟩ := hd
+      exact digits_lt d (by simpa using hx)
+    simp only [Function.comp, Int.toNat_natCast, id, Int.ofNat_eq_natCast]
+    rw [show (255:Nat) = 2^8 - 1 by decide, Nat.and_two_pow_sub_one_eq_mod]
+    exact Nat.mod_eq_of_lt this
+
+theorem WF_map_red' {α : Type} (l : List α) (k : Nat) (f : α → Int) : (⟨l.map fun x => red k (f x), k⟩ : Poly).WF := by
+  apply WF_of_forall
+  intro x hx
+  obtain ⟨y, _, rfl⟩ := List.mem_map.mp hx
+  by_cases hk : k = 0
+  · exact Or.inl hk
+  · exact Or.inr (red_range (Nat.pos_of_ne_zero hk) _)
+
 end Proofs.PolyL
